@@ -30,8 +30,8 @@ def history(sess, rng, story, handler):
     if handler:
         setup.append(["handler"])
     g = story["meta"].get("globals") or []
-    if g:
-        setup.append(["observe", g[0], "o1"])
+    for gi, gname in enumerate(g[:3]):
+        setup.append(["observe", gname, "o%d" % (gi + 1)])
 
     def extras(s, r):
         x = r.random()
@@ -74,6 +74,7 @@ def one_case(job):
         a.close()
         res["skipped"] = end
         return res
+    a.send(["quiescence"])     # whatever the history ended with (also an error), nothing of a continue may be left behind
     hist_len = len(a.ops)
     # quiescence probes of the history: nothing of a continue may be left behind
     for op, r in zip(a.ops, a.results):
